@@ -62,6 +62,22 @@ FIXED = [
     ("C07", "4d3e914", "`try{[1,2,3].forEach(function(x){if(x==2)throw 'E'})}catch(e){}`: the catch saw undefined and forEach kept iterating (a throw unwound the call stack under a running native); `id.call(null,x)` inside map ran the rest of the program inside the native"),
     ("C05", "4d3e914", "same defect: control flow after a throw crossing a native callback, and after Function.prototype.call/apply, continued in the wrong place"),
     ("C08", "4d3e914", "same defect: call/apply re-entered the full run loop"),
+    ("C09", "c84fb53", "`/\\d/.test('\u0663')`, `/\\w/.test('\u00e9')`, `/\\s/.test('\\x1c')` were true: the matcher used str.isdigit/isalnum/isspace"),
+    ("C19", "6825bf7", "JSON.stringify escaped non-ASCII text, printed NaN/Infinity and host float spellings, serialised functions as null and undefined as 'null'; JSON.parse accepted NaN"),
+    ("C02", "6825bf7", "`var a=[]; a.push(a); JSON.stringify(a)` ended in RecursionError"),
+    ("C02", "bca19a8", "`var o={}; for(var i=0;i<3000;i++){o=Object.create(o)} o.zzz` ended in RecursionError: property lookup recursed per prototype link"),
+    ("C02", "bf51a07", "Context.set('x', l) with l=[1]; l.append(l), and eval('var a=[1]; a.push(a); a'), ended in RecursionError"),
+    ("C11", "bf51a07", "cyclic values crossing the Python/JavaScript boundary overflowed the host stack instead of raising a JSError"),
+    ("C03", "5bb4379", "`new Int8Array(4).buffer` was the Python None"),
+    ("C11", "5bb4379", "`new Int8Array(4).buffer` was the Python None"),
+    ("C06", "f49e8e4", "`0 ** -1` raised ZeroDivisionError, `(-8) ** (1/3)` was complex, `10 ** 400` an exact big integer"),
+    ("C04", "e31721c", "`'abc'.charAt(NaN)`, `[1,2].slice(0, Infinity)`, `(1.5).toFixed(NaN)` and 35 more index/count/digit arguments raised ValueError/OverflowError out of eval"),
+    ("C16", "e31721c", "string methods: int(NaN)/int(Infinity) escapes (charAt, indexOf, slice, substring, split, repeat, startsWith, endsWith, includes ...)"),
+    ("C17", "e31721c", "array and typed-array methods: int(NaN)/int(Infinity) escapes (splice, slice, indexOf, lastIndexOf, includes, subarray, set); `a.length = -1` dropped the last element; sort treated a comparator result of 0.5 as equal"),
+    ("C18", "e31721c", "number methods: toFixed/toString/toExponential/toPrecision with NaN, Infinity or undefined arguments, and subnormal receivers (ZeroDivisionError)"),
+    ("C04", "9a4f555", "`new Array(NaN)`, `new Int8Array(-1)`, `Math.floor(Infinity)`, `Math.sin(Infinity)`, `Math.exp(1000)`, `parseInt('ff', NaN)`, `String.fromCharCode(-1)` raised host exceptions out of eval"),
+    ("C17", "9a4f555", "Array/typed array/ArrayBuffer constructors with NaN, negative, fractional or infinite lengths and offsets"),
+    ("C18", "9a4f555", "Math functions of NaN/Infinity, Math.imul/clz32 of NaN, parseInt radix handling"),
     ("C04", "5541b57", "`a.reduce(function(acc,x){a.pop();return acc+x})` (and reduceRight) let a raw IndexError escape: the loop bound was computed before the callbacks ran"),
 ]
 
